@@ -27,6 +27,7 @@ Core Lean only: the driver links this file.
 -/
 import CtyModel.Ops2
 import CtyModel.SetImpl
+import CtyModel.TySpec
 namespace CtyModel
 
 abbrev Bytes := List UInt8
@@ -403,21 +404,9 @@ def ctyRules (e : Ty) : Rules Payload where
     | _ => false
   less := some fun a b => match Value.setLess e a b with | .ok r => r | _ => false
 
-mutual
-/-- does a capsule type occur in the type?  (`Equals` on capsules — pointer identity
-or the type's own `Equals` operation — is outside the model) -/
-def Ty.hasCapsule : Ty → Bool
-  | .capsule _ => true
-  | .list e | .set e | .map e => Ty.hasCapsule e
-  | .tuple es => Ty.hasCapsuleL es
-  | .object _ ts _ => Ty.hasCapsuleL ts
-  | _ => false
-def Ty.hasCapsuleL : List Ty → Bool
-  | [] => false
-  | t :: ts => Ty.hasCapsule t || Ty.hasCapsuleL ts
-end
-
-/-- the model decides `Hash` and `Equivalent` on these members: no capsule type,
+/-- the model decides `Hash` and `Equivalent` on these members: no capsule type
+(`Ty.hasCapsule`: `Equals` on capsules — pointer identity or the type's own
+`Equals` operation — is outside the model),
 and every hash is computed (no rune outside the known part of the printable table) -/
 def ctyRulesOk (e : Ty) (ms : List Payload) : Bool :=
   !e.hasCapsule && ms.all (fun p => (Value.hash ⟨e, p⟩).isOk)
